@@ -75,7 +75,7 @@ def protocol(f0: bool, f1: bool, f2: bool, f3: bool, b0: bool, b1: bool, b2: boo
 
 BOUNDS = {
     "quick": [
-        "12 request templates (nested defers, stream inside defer, overlapping fragments at different defer depths, defer inside streamed items, initialCount 0/1/2, the same fragment deferred and plain, equal labels on different paths, non-null errors in deferred fragments and streams, a failing execution group shared by two fragments, stream + defer over one list)",
+        "13 request templates (nested defers, stream inside defer, overlapping fragments at different defer depths, defer inside streamed items, initialCount 0/1/2, the same fragment deferred and plain, equal labels on different paths, non-null errors in deferred fragments and streams, a failing execution group shared by two fragments, stream + defer over one list)",
         "symbolic: the `if` of every directive (up to 4), sync/awaitable for 8 resolver positions, consumer pulls eagerly or after everything settled, 6 scheduler decisions (completion order); cells: template x list kind (plain / async generator / list of awaitables) x enable_early_execution x error injection",
     ],
     "thorough": ["same cells, larger budget"],
@@ -94,7 +94,7 @@ def cells(tier):
         for lk in (0, 1, 2):
             for early in (False, True):
                 errs = [(False, False)]
-                if doc in (4, 7, 10):
+                if doc in (4, 7, 10, 12):
                     errs = [(False, False), (True, False)]
                 if doc == 5:
                     errs = [(False, True), (False, False)]
